@@ -167,3 +167,10 @@ func RejectClass(err error) string {
 	}
 	return "cl-rejects:go-constant-panic/invalid-shift"
 }
+
+var constRuneString = regexp.MustCompile(`string\(rune\((?:[0-9+\-*/%&|^<>() ]|\bc[0-4]\b)+\)\)`)
+
+// HasConstRuneString reports whether src converts a constant integer expression with
+// string(rune(...)): gogen folds that conversion to a constant that still holds the integer, so
+// comparisons and len() of it go wrong (a listed finding of C01 and C25).
+func HasConstRuneString(src string) bool { return constRuneString.MatchString(src) }
